@@ -16,10 +16,12 @@ A. Elements.py (facts, not code)
         self._f = p                              -> PArg p          (p a parameter of __init__, never rebound)
         self._f = p if not reverse else -p       -> PNegIfReverse p (reverse a keyword-only parameter; the class is decorated
                                                     with simple_circuit_element and does not define is_reverse)
+        self._f = -p if reverse else p           -> PNegIfReverse p (the same selection with the test un-negated and the
+                                                    branches swapped; same side conditions)
      anything else: no entry (the read stays the opaque SAttr A).
 B. DiagramParser.py / DiagramTranslator.py: methods of the dataclasses SchematicDiagramParser (field drawing) and
-   DiagramTranslator (fields diagram_parser, translator_map; only __call__), module functions _remove_none,
-   circuit_translator, network_translator.  Parameters are typed by their annotation: schemdraw.util.Point, str,
+   DiagramTranslator (fields diagram_parser, translator_map; __call__ and expression methods, see below), module functions
+   _remove_none, circuit_translator, network_translator (and tuple helpers, see below).  Parameters are typed by their annotation: schemdraw.util.Point, str,
    schemdraw.elements.Element, elm.Schematic, list (a list of optionals).
    Statements
      NAME = <expr>          (a set / dict may only be bound to a FRESH value: never `a = b` for mutable b)
@@ -42,10 +44,23 @@ B. DiagramParser.py / DiagramTranslator.py: methods of the dataclasses Schematic
            they are after the last round)
      if / elif / else (a branch either ends in return / raise on every path or not at all); return <expr>;
      raise MultipleGroundNodes | UnknownElement(..) | UnknownTranslator(..)
+     NAME = self.translator_map[k]      a local translator function (looked up now, applied later as NAME(element, labels))
+     A, B = h(x, ..)        h a module function of DiagramTranslator.py whose last statement returns a tuple display (a TUPLE HELPER:
+           plain positional parameters annotated elm.Schematic / ... / ElementTranslatorMap, body `NAME = <expr>`* then
+           `return <expr>, <expr>[, ..]`, no lambda / := / nested def): accepted only as this statement, at the top level of a
+           module function, every argument a NAME (a local of the parameter's kind, or the name of a translator map for an
+           ElementTranslatorMap parameter).  INLINED: the statements of h with its parameters renamed to the arguments and its
+           locals renamed apart from every name of the caller, then A = <first returned expression>; B = <second> (the targets may
+           not occur in the returned expressions, so binding them in turn is the tuple assignment).  h gets no definition of its own.
      def P(e): try: _ = e.name / except AttributeError: return False / return True       (local "hasattr" predicate)
      try: return <expr> / except KeyError: raise <exception>                              (whole function body)
    Expressions
      self.drawing.elements; self.<property>; self.<method>(args); self.diagram_parser.<method>; self.translator_map[k];
+     self.m(x, ..) in DiagramTranslator.__call__, m another method of DiagramTranslator: m must be an EXPRESSION METHOD (plain name not
+       starting with `__`, undecorated, parameters (self, <annotated plain positional>), body one `return <expr>` without lambda /
+       := / comprehension) and every argument the NAME of a local of the annotated kind; INLINED as <expr> with the parameters
+       renamed to the arguments (the method's self is the caller's; passing a name evaluates nothing).  Methods named __x__
+       (__eq__, __init__, __getattr__ ...) stay refused: they would change what the dataclass is.
      [elt for x in L if cond], {elt for x in L}, {k: v for x in L}, [x for x in L if x is not None];
      type(e) is elm.C; isinstance(e, elm.C); P(e) (local predicate); type(e);
      elm.round_node(e.absanchors['start'|'end']); elm.get_nodes(e) (a static pair), elm.get_nodes(e)[literal],
@@ -64,6 +79,13 @@ C. CircuitComponentTranslators.py: `def f(element: elm.C, nodes: tuple[str, ...]
      [from ..SignalProcessing.periodic_functions import Cls]  return ccp.g(kw=..., ...)        (keywords only)
      if <cond>: return ccp.g(...) / return ccp.g(...)     (same g, id, nodes and keys: merged into conditional values)
    `def none_translator(*_): return None`, and the dict literal circuit_translator_map {elm.C: function name}.
+   EXPRESSION HELPERS: a function of the module that another function of the module calls by bare name is not a translator but a
+   helper `def h(p, ..): [if c: return e]* return e` (plain positional parameters, not rebound by an import, not a table entry).
+   A call h(a, ..) is accepted where a nodes / value expression is, with every argument one of the two parameter NAMES of the
+   calling translator, and is INLINED as the conditional expression `e1 if c1 else (e2 if .. else en)` the body amounts to, the
+   parameters renamed to the arguments (bool(c) is taken once and only the selected e is evaluated, in both forms; passing a name
+   evaluates nothing).  The helper may only mention its parameters, pi, inf and other helpers; it gets no definition of its own
+   (a comment in the output records the inlined expression).  `_oriented_nodes(element, nodes)`, `_phase_in_rad(element)`.
    id: element.name; nodes: (nodes[i], nodes[j]) | (nodes[i],) | T if [not] element.is_reverse else T';
    values: element.A | v.real | -v | v*w | v/w | pi | inf | number | Cls.wavetype | v if [not] element.is_reverse else v'
            | v if <cond> else v'  with cond a value or `v == w`; element.A.B.
@@ -101,6 +123,20 @@ EXPECT = {
                               "            SimpleCircuitElement.__init__(self, name=kwargs.get('name', ''), "
                               "reverse=kwargs.get('reverse', False))\n    return decorated_element",
 }
+
+
+def rename_names(node, ren):
+    """a deep copy of `node` with every Name whose id is a key of `ren` renamed"""
+    import copy
+
+    class Rename(ast.NodeTransformer):
+        def visit_Name(self, n):
+            return ast.copy_location(ast.Name(id=ren[n.id], ctx=n.ctx), n) if n.id in ren else n
+    return ast.fix_missing_locations(Rename().visit(copy.deepcopy(node)))
+
+
+def is_docstring(st):
+    return isinstance(st, ast.Expr) and isinstance(st.value, ast.Constant) and isinstance(st.value.value, str)
 
 
 def S(s):
@@ -292,15 +328,22 @@ class Elements:
         v = a.value
         if isinstance(v, ast.Name) and v.id in params and v.id not in rebound and v.id != 'self':
             return f'PArg {S(v.id)}'
+        # `p if not reverse else -p`, or the same selection written `-p if reverse else p` (bool(reverse) is taken once, then
+        # exactly one of p / -p is evaluated, in both spellings)
+        plain = negated = None
         if isinstance(v, ast.IfExp) and isinstance(v.test, ast.UnaryOp) and isinstance(v.test.op, ast.Not) \
-                and isinstance(v.test.operand, ast.Name) and v.test.operand.id == 'reverse' \
-                and isinstance(v.body, ast.Name) and v.body.id in params and v.body.id not in rebound \
-                and isinstance(v.orelse, ast.UnaryOp) and isinstance(v.orelse.op, ast.USub) \
-                and isinstance(v.orelse.operand, ast.Name) and v.orelse.operand.id == v.body.id:
+                and isinstance(v.test.operand, ast.Name) and v.test.operand.id == 'reverse':
+            plain, negated = v.body, v.orelse
+        elif isinstance(v, ast.IfExp) and isinstance(v.test, ast.Name) and v.test.id == 'reverse':
+            plain, negated = v.orelse, v.body
+        if plain is not None and isinstance(plain, ast.Name) and plain.id in params and plain.id not in rebound \
+                and plain.id not in ('self', 'reverse') \
+                and isinstance(negated, ast.UnaryOp) and isinstance(negated.op, ast.USub) \
+                and isinstance(negated.operand, ast.Name) and negated.operand.id == plain.id:
             inf = self.info_of(cname)
             if 'reverse' in [x.arg for x in ia.kwonlyargs] and 'reverse' not in rebound and inf['decorated'] \
                     and not any('is_reverse' in self.info_of(c)['defines'] for c in self.ancestors(cname)):
-                return f'PNegIfReverse {S(v.body.id)}'
+                return f'PNegIfReverse {S(plain.id)}'
         return None
 
 
@@ -339,7 +382,15 @@ class ComponentTranslators:
         if self.table is None:
             raise Unsupported(f'{self.path}: circuit_translator_map not found')
         self.reads = {}          # function -> attributes read through element.A
-        self.defs = {n: self.function(f) for n, f in self.funcs.items()}
+        # expression helpers: the functions of the module that another function of the module calls by bare name.  They are inlined
+        # at the call (see T.inline) and get no definition of their own.
+        self.helpers = {}
+        called = {n.func.id for f in self.funcs.values() for n in ast.walk(f)
+                  if isinstance(n, ast.Call) and isinstance(n.func, ast.Name) and n.func.id in self.funcs}
+        for n in self.funcs:
+            if n in called:
+                self.helpers[n] = self.helper(self.funcs[n])
+        self.defs = {n: self.function(f) for n, f in self.funcs.items() if n not in self.helpers}
         self.rows, self.unmodelled = self.read_table()
 
     def bad(self, node, what):
@@ -388,6 +439,41 @@ class ComponentTranslators:
         for name, e in exp.items():
             if bound.get(name) != e:
                 raise Unsupported(f'{self.path}: the name {name} is bound by {bound.get(name)}, expected {e}')
+        self.import_bound = set(bound)
+
+    # ---------------------------------------------------------------- one expression helper
+    def helper(self, f):
+        """`def h(p, ...): [if c: return e]* return e` -> (parameter names, the conditional expression `e if c else (...)` the body
+        amounts to).  bool(c) is taken once and only the selected `e` is evaluated, in the statement form as in the expression form."""
+        a = f.args
+        if f.decorator_list or a.vararg or a.kwarg or a.kwonlyargs or a.posonlyargs or a.defaults or not a.args:
+            raise self.bad(f, f'helper {f.name}: decorated, or parameters other than plain positional ones')
+        if f.name in self.import_bound or f.name in ('elm', 'ccp', 'pi', 'inf', 'circuit_translator_map'):
+            raise self.bad(f, f'helper {f.name}: the name is also bound by an import')
+        params = [x.arg for x in a.args]
+        if len(set(params)) != len(params) or any(x in ('elm', 'ccp', 'pi', 'inf') or x in self.funcs for x in params):
+            raise self.bad(f, f'helper {f.name}: parameter names {params}')
+        body = [st for st in f.body if not (isinstance(st, ast.Expr) and isinstance(st.value, ast.Constant)
+                                            and isinstance(st.value.value, str))]
+        if not body or not (isinstance(body[-1], ast.Return) and body[-1].value is not None):
+            raise self.bad(f, f'helper {f.name}: does not end in `return <expr>`')
+        expr = body[-1].value
+        for st in reversed(body[:-1]):
+            if not (isinstance(st, ast.If) and not st.orelse and len(st.body) == 1 and isinstance(st.body[0], ast.Return)
+                    and st.body[0].value is not None):
+                raise self.bad(st, f'helper {f.name}: statement {ast.unparse(st).splitlines()[0]} (only `if c: return e` before the '
+                                   f'final return)')
+            expr = ast.copy_location(ast.IfExp(test=st.test, body=st.body[0].value, orelse=expr), st)
+        for n in ast.walk(expr):
+            if isinstance(n, (ast.Lambda, ast.NamedExpr, ast.ListComp, ast.SetComp, ast.DictComp, ast.GeneratorExp, ast.Await,
+                              ast.Yield, ast.YieldFrom, ast.Starred)):
+                raise self.bad(n, f'helper {f.name}: {type(n).__name__}')
+            if isinstance(n, ast.Name) and not isinstance(n.ctx, ast.Load):
+                raise self.bad(n, f'helper {f.name}: binds {n.id}')
+            if isinstance(n, ast.Name) and n.id not in params and n.id not in ('pi', 'inf') and n.id not in self.helpers \
+                    and n.id not in self.funcs:
+                raise self.bad(n, f'helper {f.name}: the name {n.id} is neither a parameter nor pi / inf')
+        return params, expr
 
     # ---------------------------------------------------------------- one translator function
     def function(self, f):
@@ -463,6 +549,8 @@ class ComponentTranslators:
                 raise self.bad(v, f'circuit_translator_map[elm.{c}] = {ast.unparse(v)} is not a function of this module')
             if self.funcs[v.id].lineno > self.table_line:
                 raise self.bad(v, f'{v.id} is defined after the table')
+            if v.id in self.helpers:
+                raise self.bad(v, f'{v.id} is called by another function of the module (an inlined helper) and is a table entry as well')
             if c in MODEL_CLASSES:
                 rows.append((c, v.id))
             elif c in UNMODELLED:
@@ -481,6 +569,7 @@ class T:
         self.o, self.f, self.el, self.nd = owner, f, el, nd
         self.waves = {}
         self.reads = []
+        self.inlining = []       # helpers being inlined (no recursion)
 
     def bad(self, node, what):
         return self.o.bad(node, f'{self.f.name}: {what}')
@@ -496,7 +585,46 @@ class T:
             return False
         return None
 
+    def inline(self, e):
+        """h(a, ...) for an expression helper h of the module, every argument one of the two parameter NAMES of this function
+        -> the helper's conditional expression with its parameters renamed to the arguments, else None.  (Passing a name evaluates
+        nothing, so the inlined expression does what the call does, in the same order.)"""
+        if not (isinstance(e, ast.Call) and isinstance(e.func, ast.Name) and e.func.id in self.o.funcs):
+            return None
+        h = e.func.id
+        if h not in self.o.helpers or h in (self.el, self.nd) or h in self.waves:
+            raise self.bad(e, f'call of {h}, which is not an expression helper of the module')
+        if h in self.inlining:
+            raise self.bad(e, f'recursive helper {h}')
+        params, expr = self.o.helpers[h]
+        if e.keywords or len(e.args) != len(params) or \
+                not all(isinstance(x, ast.Name) and x.id in (self.el, self.nd) for x in e.args):
+            raise self.bad(e, f'{ast.unparse(e)}: the arguments of a helper must be the parameter names '
+                              f'{self.el} / {self.nd}, positionally, one per parameter')
+        ren = {p: x.id for p, x in zip(params, e.args)}
+
+        class Rename(ast.NodeTransformer):
+            def visit_Name(self, n):
+                return ast.copy_location(ast.Name(id=ren[n.id], ctx=n.ctx), n) if n.id in ren else n
+        import copy
+        return ast.fix_missing_locations(Rename().visit(copy.deepcopy(expr))), h
+
+    def inlined(self, e, how):
+        got = self.inline(e)
+        if got is None:
+            return None
+        body, h = got
+        self.inlining.append(h)
+        try:
+            return how(body)
+        finally:
+            self.inlining.pop()
+
     def value(self, e):
+        if isinstance(e, ast.Call):
+            got = self.inlined(e, self.value)
+            if got is not None:
+                return got
         if isinstance(e, ast.Attribute):
             if self.is_el(e.value):
                 if e.attr in ('is_reverse', 'name', 'absanchors') or not IDENT.match(e.attr):
@@ -535,6 +663,10 @@ class T:
 
     def nodes(self, e):
         """-> (canonical text, Coq term of type res (list label))"""
+        if isinstance(e, ast.Call):
+            got = self.inlined(e, self.nodes)
+            if got is not None:
+                return got
         if isinstance(e, ast.Tuple):
             idx = []
             for x in e.elts:
@@ -618,6 +750,7 @@ class Fn:
     def __init__(self, gen, f, path, kind):
         self.gen, self.f, self.path, self.kind = gen, f, path, kind      # kind: 'parser' | 'call' | 'module'
         self.env, self.n, self.needs, self.preds = {}, 0, set(), {}
+        self.inlining = []       # expression methods being inlined (no recursion)
 
     def bad(self, node, what):
         return Unsupported(f'{where(node, self.path)}: {self.f.name}: {what}')
@@ -678,6 +811,11 @@ class Fn:
                 return True
             if isinstance(n.func, ast.Name) and n.func.id in self.env and self.env[n.func.id].ty[0] in ('translator', 'fn'):
                 return True
+            if isinstance(n.func, ast.Name) and n.func.id in self.gen.tuple_helpers:
+                return True                            # inlined; what it calls is translated in the caller
+            if self.kind == 'call' and isinstance(n.func, ast.Attribute) and dotted(n.func.value) == 'self' \
+                    and n.func.attr in self.gen.texpr:
+                return True                            # an inlined expression method
             if isinstance(n.func, ast.Name) and n.func.id in self.gen.module_members:
                 if self.gen.module_member(n.func.id, n, self).monadic:
                     return True
@@ -1089,6 +1227,8 @@ class Fn:
                 pre += p
                 ts.append(t)
             return pre, f'(mk_{fn} {" ".join(ts)})', (fn.lower(),)
+        if fn is not None and fn in self.gen.tuple_helpers:
+            raise self.bad(e, f'{fn} returns a tuple: only the statement `A, B = {fn}(<names>)` at the top level of a function is accepted')
         if fn is not None and fn in self.gen.module_members:
             m = self.gen.module_member(fn, e, self)
             self.args_n(e, len(m.params), fn)
@@ -1113,6 +1253,15 @@ class Fn:
                 self.needs |= {n for n in m.needs if n != 'translator_map'}
                 x = self.fresh()
                 return pre + [(x, m.call([t]).replace(' translator_map ', f' {v.ty[1]} ', 1))], x, ('opt',)
+            if v.ty == ('fn',):
+                # a translator function looked up earlier (`translate = self.translator_map[type(element)]`) and applied now
+                self.args_n(e, 2, 'translator function')
+                p1, t1, ty1 = self.expr(e.args[0])
+                p2, t2, ty2 = self.expr(e.args[1])
+                if ty1[0] != 'sym' or ty2 != ('strtuple',):
+                    raise self.bad(e, 'translator function applied to other than (element, tuple of node labels)')
+                x = self.fresh()
+                return p1 + p2 + [(x, f'{v.coq} {t1} {t2}')], x, ('opt',)
             raise self.bad(e, f'call of the local {f.id}')
         if isinstance(f, ast.Attribute):
             return self.method_call(e)
@@ -1128,8 +1277,92 @@ class Fn:
             return pf + p1 + p2 + [(x, f'{tf} {t1} {t2}')], x, ('opt',)
         raise self.bad(e, f'call {ast.unparse(e)}')
 
+    def inline_method(self, e):
+        """self.m(a, ..) in __call__, m an expression method of DiagramTranslator, every argument the NAME of a local of the declared
+        kind -> the method's returned expression with its parameters renamed to the arguments (passing a name evaluates nothing; the
+        method's `self` is the caller's)"""
+        f = e.func
+        plist, expr = self.gen.texpr[f.attr]
+        if f.attr in self.inlining:
+            raise self.bad(e, f'recursive method {f.attr}')
+        if e.keywords or len(e.args) != len(plist):
+            raise self.bad(e, f'{f.attr} with other than {len(plist)} positional argument(s): {ast.unparse(e)}')
+        ren = {}
+        for a, (pn, want) in zip(e.args, plist):
+            if not (isinstance(a, ast.Name) and a.id in self.env and self.env[a.id].ty[0] == want[0]):
+                raise self.bad(e, f'{f.attr}(...): the argument {ast.unparse(a)} is not the name of a local of kind {want[0]}')
+            ren[pn] = a.id
+        for n in ast.walk(expr):
+            if isinstance(n, ast.Name) and n.id not in ren and n.id != 'self' and n.id in self.env:
+                raise self.bad(e, f'{f.attr}(...): the global name {n.id} of the method is a local here')
+        return rename_names(expr, ren)
+
+    def inline_tuple_helper(self, st):
+        """A, B = h(x, ..) for a tuple-returning function h of the module, at the top level of this function, every argument a NAME
+        -> the statements of h with its parameters renamed to the arguments and its locals renamed apart from the names of this
+        function, followed by A = <first returned expression>; B = <second>.  The targets may not occur in the returned expressions, so
+        binding them one after the other is what the tuple assignment does."""
+        tg, c = st.targets[0], st.value
+        h = c.func.id
+        if self.kind != 'module' or st not in self.f.body:
+            raise self.bad(st, f'{h} returns a tuple: only accepted at the top level of a module function')
+        plist, body, rets = self.gen.tuple_helpers[h]
+        if self.f.name == h:
+            raise self.bad(st, f'recursive function {h}')
+        if c.keywords or len(c.args) != len(plist) or not all(isinstance(a, ast.Name) for a in c.args):
+            raise self.bad(st, f'{h}(...): the arguments must be {len(plist)} names, positionally')
+        ren = {}
+        for a, (pn, kind) in zip(c.args, plist):
+            if kind == 'map':
+                ok = a.id in self.gen.maps and a.id not in self.env
+            else:
+                ok = a.id in self.env and self.env[a.id].ty == kind
+            if not ok:
+                raise self.bad(st, f'{h}(...): the argument {a.id} is not of the kind of the parameter {pn}')
+            ren[pn] = a.id
+        if not all(isinstance(x, ast.Name) for x in tg.elts) or len({x.id for x in tg.elts}) != len(tg.elts) \
+                or len(tg.elts) != len(rets):
+            raise self.bad(st, f'unpacking the {len(rets)} results of {h} into {ast.unparse(tg)}')
+        mine = {n.id for n in ast.walk(self.f) if isinstance(n, ast.Name)} | set(self.env) | {x.arg for x in self.f.args.args}
+        theirs = {n.id for x in body + rets for n in ast.walk(x) if isinstance(n, ast.Name)} | {pn for pn, _ in plist}
+        local = []
+        for x in body + rets:
+            for n in ast.walk(x):
+                if isinstance(n, ast.Name) and isinstance(n.ctx, ast.Store) and n.id not in local:
+                    local.append(n.id)
+        for n in theirs:
+            if n not in ren and n not in local and n in self.env:
+                raise self.bad(st, f'{h}(...): the global name {n} of {h} is a local here')
+        for n in local:
+            if n in mine or n in ren.values():
+                k = 1
+                while f'{n}_{k}' in mine or f'{n}_{k}' in theirs or f'{n}_{k}' in ren.values():
+                    k += 1
+                ren[n] = f'{n}_{k}'
+        out = [ast.copy_location(rename_names(x, ren), st) for x in body]
+        vals = [rename_names(x, ren) for x in rets]
+        for x in tg.elts:
+            if any(isinstance(n, ast.Name) and n.id == x.id for v in vals for n in ast.walk(v)):
+                raise self.bad(st, f'the target {x.id} occurs in what {h} returns')
+        for x, v in zip(tg.elts, vals):
+            out.append(ast.copy_location(ast.Assign(targets=[ast.Name(id=x.id, ctx=ast.Store())], value=v), st))
+        for x in out:
+            ast.fix_missing_locations(x)
+            for n in ast.walk(x):
+                if hasattr(n, 'lineno'):
+                    n.lineno = st.lineno
+        return out
+
     def method_call(self, e):
         f = e.func
+        if self.kind == 'call' and isinstance(f.value, ast.Name) and f.value.id == 'self' and 'self' not in self.env \
+                and f.attr in self.gen.texpr:
+            body = self.inline_method(e)
+            self.inlining.append(f.attr)
+            try:
+                return self.expr(body)
+            finally:
+                self.inlining.pop()
         m = self.member_ref(f)
         if m is not None:
             if m.is_property:
@@ -1331,6 +1564,9 @@ class Fn:
         if len(st.targets) != 1:
             raise self.bad(st, 'chained assignment')
         tg = st.targets[0]
+        if isinstance(tg, ast.Tuple) and isinstance(st.value, ast.Call) and isinstance(st.value.func, ast.Name) \
+                and st.value.func.id in self.gen.tuple_helpers and st.value.func.id not in self.env:
+            return self.block(self.inline_tuple_helper(st) + rest, ctx, m, ind)
         if isinstance(tg, ast.Tuple):
             if not (self.is_get_nodes(st.value) and all(isinstance(x, ast.Name) for x in tg.elts)):
                 raise self.bad(st, 'tuple assignment from something other than elm.get_nodes(<element>)')
@@ -1763,20 +1999,93 @@ class Gen:
             'SchematicDiagramParser': ('from', 1, 'DiagramParser', 'SchematicDiagramParser')})
         self.tmethods = self.dataclass(ttree, self.tpath, 'DiagramTranslator', ['diagram_parser', 'translator_map'],
                                        ['UnknownTranslator'], 'dataclass', allow_functions=True)
-        if list(self.tmethods) != ['__call__']:
-            raise Unsupported(f'{self.tpath}: DiagramTranslator has methods other than __call__: {list(self.tmethods)}')
+        if '__call__' not in self.tmethods:
+            raise Unsupported(f'{self.tpath}: DiagramTranslator has no method __call__: {list(self.tmethods)}')
+        # the other methods of DiagramTranslator: expression methods, inlined where __call__ calls them (Fn.inline_method)
+        self.texpr = {n: self.expression_method(f) for n, f in self.tmethods.items() if n != '__call__'}
         self.module_members = {}
         for st in ttree.body:
             if isinstance(st, ast.FunctionDef):
                 if st.name in self.module_members or st.name in self.reserved:
                     raise Unsupported(f'{where(st, self.tpath)}: function {st.name} defined twice / reserved name')
                 self.module_members[st.name] = st
+        # the module functions that return a tuple display: inlined at `A, B = f(x, ..)` (Fn.inline_tuple_helper), no definition of
+        # their own
+        self.tuple_helpers = {}
+        for n, f in self.module_members.items():
+            body = [x for x in f.body if not is_docstring(x)]
+            if body and isinstance(body[-1], ast.Return) and isinstance(body[-1].value, ast.Tuple):
+                self.tuple_helpers[n] = self.tuple_helper(f, ttree)
         # translate everything (dependencies first)
         for name, f in self.pmethods.items():
             self.parser_member(name, f, None)
         self.call_member(self.tmethods['__call__'], None)
         for name, f in self.module_members.items():
-            self.module_member(name, f, None)
+            if name not in self.tuple_helpers:
+                self.module_member(name, f, None)
+
+    def expression_method(self, f):
+        """`def m(self, p: T, ...): return <expr>` of DiagramTranslator -> ([(p, kind)], <expr>).  The name may not be a special
+        method name (a dataclass with __eq__ / __init__ / __getattr__ ... of its own is another class)."""
+        a = f.args
+        if not IDENT.match(f.name) or f.name.startswith('__') or f.name in self.reserved:
+            raise Unsupported(f'{where(f, self.tpath)}: DiagramTranslator has the method {f.name} besides __call__ '
+                              f'(only plain-named expression methods are accepted)')
+        if f.decorator_list or a.vararg or a.kwarg or a.kwonlyargs or a.posonlyargs or a.defaults or not a.args \
+                or a.args[0].arg != 'self':
+            raise Unsupported(f'{where(f, self.tpath)}: method {f.name}: decorated, or parameters other than (self, <plain positional>)')
+        plist = []
+        for x in a.args[1:]:
+            ann = ast.unparse(x.annotation) if x.annotation is not None else None
+            if ann not in ANNOT or not IDENT.match(x.arg) or x.arg in self.reserved or x.arg in [q[0] for q in plist]:
+                raise Unsupported(f'{where(f, self.tpath)}: method {f.name}: parameter {x.arg}: {ann} (annotations known: {sorted(ANNOT)})')
+            plist.append((x.arg, ANNOT[ann]))
+        body = [x for x in f.body if not is_docstring(x)]
+        if not (len(body) == 1 and isinstance(body[0], ast.Return) and body[0].value is not None):
+            raise Unsupported(f'{where(f, self.tpath)}: method {f.name}: the body is not a single `return <expr>`')
+        self.no_binders(body[0].value, f'method {f.name}', comprehensions=False)
+        return plist, body[0].value
+
+    def no_binders(self, node, what, comprehensions):
+        for n in ast.walk(node):
+            if isinstance(n, (ast.Lambda, ast.NamedExpr, ast.Yield, ast.YieldFrom, ast.Await, ast.Return, ast.FunctionDef, ast.ClassDef,
+                              ast.AsyncFunctionDef, ast.Global, ast.Nonlocal, ast.Starred, ast.Import, ast.ImportFrom, ast.Delete)) \
+                    or (not comprehensions and isinstance(n, (ast.ListComp, ast.SetComp, ast.DictComp, ast.GeneratorExp))):
+                raise Unsupported(f'{where(n, self.tpath)}: {what}: {type(n).__name__}')
+
+    def tuple_helper(self, f, tree):
+        """`def h(p: T, ...): NAME = <expr> ...; return <expr>, <expr>[, ...]` -> ([(p, kind | 'map')], [assignments], [returned exprs])"""
+        a = f.args
+        if f.decorator_list or a.vararg or a.kwarg or a.kwonlyargs or a.posonlyargs or a.defaults:
+            raise Unsupported(f'{where(f, self.tpath)}: {f.name}: decorated, or star / keyword-only / defaulted parameters')
+        plist = []
+        for x in a.args:
+            ann = ast.unparse(x.annotation) if x.annotation is not None else None
+            if ann == 'ElementTranslatorMap':
+                self.check_imports(tree, self.tpath, {'ElementTranslatorMap': ('from', 1, 'SchemdrawTranslatorTypes', 'ElementTranslatorMap')})
+                kind = 'map'
+            elif ann in ANNOT:
+                kind = ANNOT[ann]
+            else:
+                kind = None
+            if kind is None or not IDENT.match(x.arg) or x.arg in self.reserved or x.arg in [q[0] for q in plist]:
+                raise Unsupported(f'{where(f, self.tpath)}: {f.name}: parameter {x.arg}: {ann} '
+                                  f'(annotations known: {sorted(ANNOT) + ["ElementTranslatorMap"]})')
+            plist.append((x.arg, kind))
+        body = [x for x in f.body if not is_docstring(x)]
+        ret = body[-1].value
+        if len(ret.elts) < 2:
+            raise Unsupported(f'{where(f, self.tpath)}: {f.name}: returns a tuple of fewer than two values')
+        for st in body[:-1]:
+            if not (isinstance(st, ast.Assign) and len(st.targets) == 1 and isinstance(st.targets[0], ast.Name)):
+                raise Unsupported(f'{where(st, self.tpath)}: {f.name}: statement {ast.unparse(st).splitlines()[0]} '
+                                  f'(a function returning a tuple may only consist of `NAME = <expr>` and the return)')
+            if st.targets[0].id in [q[0] for q in plist]:
+                raise Unsupported(f'{where(st, self.tpath)}: {f.name}: rebinds its parameter {st.targets[0].id}')
+            self.no_binders(st.value, f.name, comprehensions=True)
+        for x in ret.elts:
+            self.no_binders(x, f.name, comprehensions=True)
+        return plist, body[:-1], list(ret.elts)
 
     @staticmethod
     def check_imports(tree, path, expected):
@@ -1897,6 +2206,10 @@ def generate(src):
     w('')
     w('(* ================================================================== C. CircuitComponentTranslators.py *)')
     for n in cp.funcs:
+        if n in cp.helpers:
+            w(f'(* {n}({cmt(", ".join(cp.helpers[n][0]))}): expression helper, inlined at its calls as\n'
+              f'   {cmt(ast.unparse(cp.helpers[n][1]))}   ({CCT}:{cp.funcs[n].lineno}) *)\n')
+            continue
         w(cp.defs[n]['text'])
     w('(* circuit_translator_map, the classes of the model *)')
     w('Definition g_circuit_translator_map : list (N * translator_fn gcomponent) := [\n'
@@ -1908,6 +2221,10 @@ def generate(src):
       + '; '.join(f'({S(c)}, {S(fn)})' for c, fn in cp.unmodelled) + '].')
     w('')
     w('(* ================================================================== B. DiagramParser.py, DiagramTranslator.py *)')
+    for n in g.texpr:
+        w(f'(* DiagramTranslator.{n}: expression method, inlined where __call__ calls it   ({DT}:{g.tmethods[n].lineno}) *)')
+    for n in g.tuple_helpers:
+        w(f'(* {n}: returns a tuple, inlined at the statements `A, B = {n}(..)`   ({DT}:{g.module_members[n].lineno}) *)')
     for m in g.out:
         w(m.text)
     return {'DrawingGen.v': '\n'.join(L) + '\n'}
